@@ -1192,5 +1192,34 @@ def rule_transport_close_contained(ctx):
 
 
 
+
+def rule_only_the_close_sequence_notifies(ctx):
+    """C11.r  The close notification is delivered once per endpoint because one place delivers it: every call of an
+    `on_close` in the library is in the close sequence (_on_connection_closed) or in an `on_close` method that hands the
+    notification on to its delegate.  A second source - another call-back of the handler that 'also closes', say - makes
+    the count depend on how the connection ended: an attempt that fails during establishment reports the error and
+    then runs the close sequence as well."""
+    rep = ctx.report
+    n = 0
+    bad = []
+    for f in ctx.repo.all_functions():
+        if not f.module.name.startswith(('rsocket.', 'reactivestreams.')) or f.module.name.startswith('rsocket.cli'):
+            continue
+        for c in walk_local(f.node):
+            if isinstance(c, ast.Call) and isinstance(c.func, ast.Attribute) and c.func.attr == 'on_close':
+                n += 1
+                if f.name not in ('_on_connection_closed', 'on_close'):
+                    bad.append((f, c))
+    rep.require('C11.r', 'calls of on_close in the library', n, 3)
+    for f, c in bad:
+        rep.bad('C11.r', '%s / calls on_close' % f.short, f,
+                'line %d: on_close is also delivered from %s: an endpoint whose connection ends this way is notified '
+                'here and again by the close sequence' % (c.lineno, f.name))
+    if not bad:
+        rep.ok('C11.r', 'on_close / delivered by the close sequence (and delegating on_close methods) only',
+               ctx.repo.func('rsocket.rsocket_base:RSocketBase._on_connection_closed'), '%d call sites' % n)
+
+
+
 RULES = [('C11.a', rule_a), ('C11.b', rule_b), ('C11.b', rule_b2), ('C11.c', rule_c), ('C11.d', rule_d), ('C11.e', rule_e),
-         ('C11.f', rule_f), ('C11.g', rule_g), ('C11.h', rule_h), ('C11.i', rule_i), ('C11.f', rule_wrap), ('C11.g+C11.e', rule_plumbing), ('C11.j', rule_group_close), ('C11.k', rule_k), ('C11.l', rule_l), ('C11.m', rule_m), ('C11.k', rule_termination_event), ('C11.n', rule_no_wait_cycle), ('C11.o', rule_close_does_not_wait_for_the_peer), ('C11.p', rule_wait_graph), ('C09.e', rule_drain_cannot_abort), ('C11.q', rule_transport_failures_are_transport_errors), ('C17.j', rule_transport_close_contained)]
+         ('C11.f', rule_f), ('C11.g', rule_g), ('C11.h', rule_h), ('C11.i', rule_i), ('C11.f', rule_wrap), ('C11.g+C11.e', rule_plumbing), ('C11.j', rule_group_close), ('C11.k', rule_k), ('C11.l', rule_l), ('C11.m', rule_m), ('C11.k', rule_termination_event), ('C11.n', rule_no_wait_cycle), ('C11.o', rule_close_does_not_wait_for_the_peer), ('C11.p', rule_wait_graph), ('C09.e', rule_drain_cannot_abort), ('C11.q', rule_transport_failures_are_transport_errors), ('C17.j', rule_transport_close_contained), ('C11.r', rule_only_the_close_sequence_notifies)]
